@@ -26,12 +26,16 @@ func newManagedAddressFromExtKey(keystoreName string, derivationPath DerivationP
 	}
 	// contract: the address is a function of the derived key; here the key's tag (branch, index) is kept
 	tag := extKey.VerifTag()
+	x := tag
+	if len(x) == 33 {
+		x = x[1:] // a tag shaped like a compressed public key: the coordinate is what follows the prefix byte
+	}
 	return &ManagedAddress{
 		address:        "addr-" + string(tag),
 		scriptHash:     append([]byte{0xee}, tag...),
 		derivationPath: derivationPath,
 		keystoreName:   keystoreName,
-		pubKey:         &btcec.PublicKey{Curve: btcec.S256(), X: new(big.Int).SetBytes(tag), Y: big.NewInt(2)},
+		pubKey:         &btcec.PublicKey{Curve: btcec.S256(), X: new(big.Int).SetBytes(x), Y: big.NewInt(2)},
 	}, nil
 }
 
